@@ -103,6 +103,7 @@ theorem emitBefore_pot (M : Nat) (mp : Printer) (cs : List Modfile.Comment) (hm 
   split
   · omega
   · have ht := pot_trim M mp
+    simp only []
     split
     · have := commentLines_pot M cs (mp.trim.writeByte 10).tabs (by simpa using hm)
       simp only [pot_tabs, pot_writeByte, writeByte_margin, trim_margin] at this
